@@ -114,6 +114,7 @@ def _worker(args):
     sim_seconds = 0.0
     shrunk_per_sig = Counter()
     n = 0
+    garbage = 0
     try:
         for i in indices:
             r_ = rng.rng_for(mod.CHECK, i, seed)
@@ -155,8 +156,12 @@ def _worker(args):
                     viols[sig] = {"signature": sig, "clause": vv["clause"], "detail": vv["detail"],
                                   "plan": small, "index": i, "shrunk": True, "size": size,
                                   "digest": rr.digest, "shrink_attempts": attempts}
-            if n % 64 == 0:
+            # garbage of a run is cyclic (kernel <-> descriptors <-> raw devices) and the collector is off while a run
+            # executes: collect by volume, not only by count, or a batch of heavy runs piles up gigabytes
+            garbage += res.evals
+            if n % 64 == 0 or garbage > 20000:
                 gc.collect()
+                garbage = 0
     except HarnessError as e:
         return {"harness_error": f"{e}", "indices": indices}
     except Exception:  # noqa: BLE001
